@@ -50,6 +50,7 @@ ASSUMPTIONS = ['adders.kogge_stone(s0, s1) inside prng_xoroshiro128 is translate
                'inputs are in range (128-bit key/block, 127/128/160-bit seeds, 1-bit load/req/reset)']
 
 M128 = (1 << 128) - 1
+_T = 'p%d_' % os.getpid()   # Coq scratch files are per process: concurrent runs of this check share work/C18
 FIPS = [  # (key, plaintext, ciphertext): FIPS-197 Appendix B, Appendix C.1, and the suite's two
     (0x2b7e151628aed2a6abf7158809cf4f3c, 0x3243f6a8885a308d313198a2e0370734, 0x3925841d02dc09fbdc118597196a0b32),
     (0x000102030405060708090a0b0c0d0e0f, 0x00112233445566778899aabbccddeeff, 0x69c4e0d86a7b0430d8cdb78070b4c55a),
@@ -415,7 +416,7 @@ def sm_schedules(ctx, which):
 def check_keygen(ctx, unit, keys, outs, ncoq):
     """a bare _key_gen(k) unit: concat_list of the 11 round keys vs FIPS-197 KeyExpansion under ITS key"""
     got_all = [[(o >> (128 * r)) & M128 for r in range(11)] for o in outs]
-    res = ctx.coq_eval([KG_SPEC % (k, k) for k in keys[:ncoq]], IMPORTS, tag='aeskg' + unit, shard=4, jobs=6)
+    res = ctx.coq_eval([KG_SPEC % (k, k) for k in keys[:ncoq]], IMPORTS, tag=_T + 'aeskg' + unit, shard=4, jobs=6)
     for i, (k, got) in enumerate(zip(keys, got_all)):
         want = [_from_bytes(rk) for rk in _expand(_to_bytes(k))]
         ctx.case(('aes-keygen', unit, k), nontrivial=True)
@@ -434,7 +435,7 @@ def check_keygen(ctx, unit, keys, outs, ncoq):
 
 def analyse_sm(ctx, which, sched, trace):
     fn = 'enc_sm_sum' if which == 'enc' else 'dec_sm_sum'
-    model = ctx.coq_eval(['%s %s' % (fn, triples(sched))], IMPORTS, tag='aessm' + which, shard=1, jobs=1)[0]
+    model = ctx.coq_eval(['%s %s' % (fn, triples(sched))], IMPORTS, tag=_T + 'aessm' + which, shard=1, jobs=1)[0]
     if model != summary(trace):
         ctx.model_mismatch('AES %s state machine and Lib/AesModel.v disagree (trace summary: [digest, cycles, last], '
                            'ready rising edges [cycle, text])' % which,
@@ -501,9 +502,9 @@ def check_aes_enc_design(ctx):
         smtrace.append([rows[-1]['ready'], rows[-1]['out']])
     shard = 4 if ctx.tier == 'quick' else 10
     res = ctx.coq_eval(['[m_encryption %#x %#x; m_decryption %#x %#x; CipherZ %#x %#x; InvCipherZ %#x %#x]' % (
-        k1, b, k2, b, k1, b, k2, b) for (k1, k2, b) in fwd], IMPORTS, tag='aes', shard=shard, jobs=10)
+        k1, b, k2, b, k1, b, k2, b) for (k1, k2, b) in fwd], IMPORTS, tag=_T + 'aes', shard=shard, jobs=10)
     npart = 12 if ctx.tier == 'quick' else 60
-    parts = ctx.coq_eval(['aes_parts %#x' % b for (k1, k2, b) in fwd[:npart]], IMPORTS, tag='aesparts', shard=20, jobs=6)
+    parts = ctx.coq_eval(['aes_parts %#x' % b for (k1, k2, b) in fwd[:npart]], IMPORTS, tag=_T + 'aesparts', shard=20, jobs=6)
     for t, ((k1, k2, b), row) in enumerate(zip(comb, rows)):
         rep = {'enc_key': hex(k1), 'dec_key': hex(k2), 'block': hex(b), 'cycle': t, 'build_order': order,
                'shared_AES_object': True}
@@ -815,14 +816,14 @@ def check_prngs(ctx):
             spec_expr = 's_tv_sum %d %d %s' % (bw, bpc, quads(rle))
         if ctx.tier != 'quick' or style in ('idle', 'suite-vectors') or style.startswith('const:') or ci % 5 == 0:
             exprs_s[ci] = spec_expr
-    res_m = ctx.coq_eval(exprs_m, IMPORTS, tag='prngm', shard=6, jobs=12)
+    res_m = ctx.coq_eval(exprs_m, IMPORTS, tag=_T + 'prngm', shard=6, jobs=12)
     skeys = sorted(exprs_s)
-    res_sd = dict(zip(skeys, ctx.coq_eval([exprs_s[k] for k in skeys], IMPORTS, tag='prngs', shard=6, jobs=12)))
+    res_sd = dict(zip(skeys, ctx.coq_eval([exprs_s[k] for k in skeys], IMPORTS, tag=_T + 'prngs', shard=6, jobs=12)))
     res_s = [res_sd.get(i) for i in range(len(cases))]
     ctx.count('prng-coq-spec-runs', 'evaluated', len(skeys))
     gkeys = sorted(exprs_g)
     try:
-        res_g = dict(zip(gkeys, ctx.coq_eval([exprs_g[k] for k in gkeys], IMPORTS_GEN, tag='prngg', shard=6, jobs=12)))
+        res_g = dict(zip(gkeys, ctx.coq_eval([exprs_g[k] for k in gkeys], IMPORTS_GEN, tag=_T + 'prngg', shard=6, jobs=12)))
     except Exception as e:  # Gen/PrngFrag.v untranslatable or no longer type-checks
         res_g = {}
         ctx.model_mismatch('the step functions regenerated from prngs.py (Gen/PrngFrag.v) cannot be evaluated: %s' % str(e)[-500:], {})
